@@ -446,3 +446,8 @@ RULES = [
     Rule("C09.R4", rule_R4, floor=9, doc="two-sided endpoint bounds; SolvedMaze.__init__ reaches the check"),
     Rule("C09.R5", rule_R5, floor=1, doc="dataset equality"),
 ]
+
+from sa import dims as _dims  # noqa: E402
+
+RULES.append(Rule("C09.AX", _dims.make_rule("C09", "C09.AX"), floor=1,
+                  doc="axis-extent agreement: coordinate components are bounded by the extent of their own axis (E13)"))
